@@ -79,7 +79,7 @@ def whole_remainder(eng, v, side):
         n += 1
         recs = written_record(p, side)
         ok = len(recs) == 1 and recs[0][0] == 'remove' and len(p.writes) == 1
-        eng.ob(ok, PROP, 'exit-removes', v, '%s (no size): the order is not removed from the book on a successful path (writes: %s)' % (v, [(w['op'], w['ns']) for w in p.writes]), detail=p.describe())
+        eng.ob(ok, PROP, 'exit-removes', v, '%s (no size): the order is not removed from the book on a successful path (writes: %s)' % (v, [(w['op'], w['ns']) for w in p.writes]), where=p, detail=p.describe())
         dom = Dom(p); eqv = Equiv(p)
         trs = [t for t in transfers(p) if not t.get('bad')]
         if side == 'ask':
@@ -90,7 +90,7 @@ def whole_remainder(eng, v, side):
             if ready: exp.append((F(V(STATUS, 'Ready', 'converted_base'), 'denom'), F(ASK, 'size'), V(STATUS, 'Ready', 'approver')))
             ua, ue = match_multiset(dom, eqv, [(t['denom'], t['amount'], t['to']) for t in trs], exp)
             eng.ob(not ua and not ue, PROP, 'exit-pays-remainder', v, '%s: payouts are not the entire recorded remainder; unexpected %s missing %s' % (v, [(K(d), dom.show(a), K(t)) for d, a, t in ua], [(K(d), dom.show(a), K(t)) for d, a, t in ue]),
-                   detail=p.describe(), sample={'rule': 'exit-pays-remainder', 'request': v, 'paid': [(K(t['denom']), K(t['amount']), K(t['to'])) for t in trs]})
+                   where=p, detail=p.describe(), sample={'rule': 'exit-pays-remainder', 'request': v, 'paid': [(K(t['denom']), K(t['amount']), K(t['to'])) for t in trs]})
         else:
             BID = stored('bid', M(v, 'id')); bs = BidSpec(BID)
             has_fee = p.variant_of(bs.FEE) == 'Some'
@@ -103,7 +103,7 @@ def whole_remainder(eng, v, side):
                 if t['to'] != bs.owner: okto = False
             want = ADD(bs.remQ, bs.remF) if has_fee else bs.remQ
             eng.ob(okto and dom.eq(total, want), PROP, 'exit-pays-remainder', v,
-                   '%s: the owner is paid %s but the recorded remaining quote (+fee) is %s' % (v, dom.show(total), dom.show(want)), detail=p.describe(),
+                   '%s: the owner is paid %s but the recorded remaining quote (+fee) is %s' % (v, dom.show(total), dom.show(want)), where=p, detail=p.describe(),
                    sample={'rule': 'exit-pays-remainder', 'request': v, 'paid_total': dom.show(total), 'recorded_remainder': dom.show(want)})
     return n
 
